@@ -138,6 +138,24 @@ func (x *g) genMethod(sv *spec.Service, j int, used map[string]bool) {
 	if len(x.solo) > 0 && m.Payload != nil && m.Payload.Type.Kind == spec.Object && x.chance(2, 3) {
 		m.Payload.Type.Attrs = append(m.Payload.Type.Attrs, &spec.Attr{Name: "solo_in", Type: &spec.Type{Kind: spec.Ref, Ref: x.solo[x.r.Intn(len(x.solo))]}})
 	}
+	// a map of primitives that genHTTP may send in the query string (name[key]=value)
+	if (x.o.Profile == "http-loc" || x.o.Profile == "mixed") && m.Payload != nil && m.Payload.Type.Kind == spec.Object && x.chance(1, 4) {
+		used := map[string]bool{}
+		for _, a := range m.Payload.Type.Attrs {
+			used[spec.Norm(a.Name)] = true
+		}
+		n := "lookup"
+		for used[spec.Norm(n)] {
+			n += "x"
+		}
+		elem := &spec.Attr{Type: &spec.Type{Kind: x.r.Pick(spec.Int, spec.String, spec.Int64, spec.Boolean, spec.Float64, spec.UInt32)}}
+		if x.chance(1, 4) {
+			elem = &spec.Attr{Type: &spec.Type{Kind: spec.Array, Elem: &spec.Attr{Type: &spec.Type{Kind: x.r.Pick(spec.String, spec.Int)}}}}
+		}
+		m.Payload.Type.Attrs = append(m.Payload.Type.Attrs, &spec.Attr{Name: n, Type: &spec.Type{Kind: spec.Map,
+			Key: &spec.Attr{Type: &spec.Type{Kind: x.r.Pick(spec.String, spec.String, spec.Int)}}, Elem: elem}})
+		x.s.AddFeature("map", "payload-map-of-primitives")
+	}
 	// an attribute typed by the outer alias of a chain (validations on the innermost alias), wherever genHTTP puts it
 	if len(x.chain) > 0 && m.Payload != nil && m.Payload.Type.Kind == spec.Object && x.chance(2, 3) {
 		m.Payload.Type.Attrs = append(m.Payload.Type.Attrs, &spec.Attr{Name: "chain_in", Type: &spec.Type{Kind: spec.Ref, Ref: x.chain[x.r.Intn(len(x.chain))]}})
@@ -352,7 +370,7 @@ func (x *g) genHTTP(sv *spec.Service, m *spec.Method, idx int) {
 		}
 		for i := 0; i < 10; i++ {
 			w := pool[x.r.Intn(len(pool))]
-			if !usedWire[strings.ToLower(w)] && !usedWire[strings.ToLower(attr)] {
+			if !usedWire[strings.ToLower(w)] {
 				usedWire[strings.ToLower(w)] = true
 				return w
 			}
@@ -389,6 +407,20 @@ func (x *g) genHTTP(sv *spec.Service, m *spec.Method, idx int) {
 					return spec.IsPrim(et.Kind) && et.Kind != spec.Any && et.Kind != spec.Bytes && at.Elem.Type.Kind != spec.Ref
 				}()
 				_ = isAliased
+				// a map of primitives (or of arrays of primitives) keyed by a primitive can travel in the query string
+				mapPrim := at.Kind == spec.Map && a.Type.Kind != spec.Ref && func() bool {
+					okPrim := func(t *spec.Type) bool {
+						return t.Kind != spec.Ref && spec.IsPrim(t.Kind) && t.Kind != spec.Any && t.Kind != spec.Bytes
+					}
+					if !okPrim(at.Key.Type) {
+						return false
+					}
+					et := at.Elem.Type
+					if et.Kind == spec.Array {
+						return okPrim(et.Elem.Type)
+					}
+					return okPrim(et)
+				}()
 				// security attributes: where they travel. At most one credential may use the
 				// Authorization header (basic auth always does).
 				if a.Sec != "" {
@@ -442,6 +474,9 @@ func (x *g) genHTTP(sv *spec.Service, m *spec.Method, idx int) {
 						rt.Required = append(rt.Required, a.Name)
 					}
 					x.s.AddFeature("path-param", "path-"+at.Kind)
+				case where <= 4 && mapPrim && !a.HasDef && x.chance(2, 3):
+					h.Query = append(h.Query, spec.Loc{Attr: a.Name, Wire: wire(queryWire, a.Name)})
+					x.s.AddFeature("query-param", "query-map")
 				case where <= 2 && (prim || arrPrim):
 					h.Query = append(h.Query, spec.Loc{Attr: a.Name, Wire: wire(queryWire, a.Name)})
 					x.s.AddFeature("query-param")
